@@ -14,7 +14,11 @@ Case kinds
   nonzero / poolonly  the `_nonzero` guard on raw norms; pool_rdm for the methods outside the property
   cvgen  the same on the sets a real generator of crossvalsets.py returns under a numpy seed
          (the structure handed to the model is read back from the returned objects)
-The model side is the Lean driver (ops c07.boot / c07.cv), the oracle an independent
+  session  (round 4) ONE RDMs object analysed by 2-4 successive calls (both ceilings, both pool_rdm, eval_fixed)
+         with different methods, in both orders; every call compared with the model (op c07.session, which threads
+         the state through `runSessionG`/`callEffect`) and judged — in a pristine process, C07_fresh.py — against
+         the pristine data; the object must hold the pristine data after every call
+The model side is the Lean driver (ops c07.boot / c07.cv / c07.session), the oracle an independent
 plain-python transcription of the property (C07_oracle.py) applied to the real code's output.
 """
 import math
@@ -23,6 +27,9 @@ import numpy as np
 
 from lean import fbits, unfbits, first_diff, close
 from engines import C07_oracle as O
+from engines.C07_fresh import Fresh
+
+_FRESH = Fresh()
 
 PROPERTY = 'C07'
 LEVEL = 'proof'
@@ -43,7 +50,10 @@ THEOREMS = [P + n for n in (
     'grouped_score_is_weighted_sum', 'upper_unbeatable_balanced_groups', 'grouped_sup_is_weighted_pool',
     'cv_ignores_common_nan', 'coded_shortcut_eq_V_form', 'ceiling_coded_shortcut_eq_V_form',
     'lower_le_upper_whitened_coded', 'ceiling_invariant_whitened_coded',
-    'guard_leaves', 'dispatch_leaves', 'loop_leaves')]
+    'guard_leaves', 'dispatch_leaves', 'loop_leaves',
+    # round 4
+    'input_write_leaves', 'call_leaves_data_unchanged', 'session_calls_independent', 'session_call_at',
+    'inplace_write_changes_data')]
 RULE = ('one PRNG; boot: 2-6 RDMs x 4-7 conditions, values small integers (ties) / quarters / '
         'distinct dyadics / signed integers with zeros, 0-3 entries missing from all RDMs (or, malformed stream, from one RDM), '
         'grouping descriptor singleton / 2-3 groups / one group, methods cosine, corr, rho-a, '
@@ -63,6 +73,12 @@ RULE = ('one PRNG; boot: 2-6 RDMs x 4-7 conditions, values small integers (ties)
         'input forms: C / Fortran-ordered float64, int64 dissimilarities (integral unit-scale stacks), descriptors as '
         'lists / numpy arrays / strings; call forms: keywords, positional, default rdm_descriptor (singleton stacks), '
         'default method (cosine), default pattern_descriptor (cv without pattern groups); '
+        'round 4, sessions: ONE RDMs object (float64 C / Fortran, or int64) analysed by 2-4 successive calls of '
+        'boot_noise_ceiling / cv_noise_ceiling (explicit folds or sets_leave_one_out_rdm built from the same object) / '
+        'both pool_rdm / eval_fixed with different methods (every ordered pair of the normalisation families plain < '
+        'scale-free < shift-free < rank occurs), every session also in the reverse order; each call is compared with '
+        'the model and judged against the pristine data, and the object must hold the pristine data after each call; '
+        'all other kinds build a fresh object for every library call; '
         'a case is non-trivial when it has >= 2 RDMs, no exception and differing RDMs; distinct = '
         'distinct (kind, method, data, grouping, folds)')
 BRANCHES = ['kind:boot', 'kind:cv', 'kind:cvgen',
@@ -78,7 +94,11 @@ BRANCHES = ['kind:boot', 'kind:cv', 'kind:cvgen',
             # round 3
             'groups:balanced', 'groups:unequal', 'wpool', 'fast', 'layout:fortran', 'layout:int',
             'layout:strdesc', 'layout:arraydesc', 'call:default_desc', 'call:positional',
-            'call:default_method', 'call:cv_default_pdesc']
+            'call:default_method', 'call:cv_default_pdesc',
+            # round 4: one object analysed by several successive calls
+            'kind:session', 'sess:len2', 'sess:len3+', 'sess:float', 'sess:int', 'sess:boot', 'sess:cv',
+            'sess:pool', 'sess:pooling', 'sess:evalfixed', 'sess:sensitive-order', 'sess:reversed',
+            'sess:cv-loo-rdm', 'sess:nan-common']
 ASSUMPTIONS = [
     'no pooled prediction is numerically (but not exactly) zero or constant: the similarity of such a '
     'prediction is rounding noise on both sides (such stacks are rejected at generation, see RULE); '
@@ -90,7 +110,10 @@ TRUSTED_EXTRA = [
     'scipy.stats.rankdata = tie-averaged ranks (checked exactly by C03)',
     'the library\'s linear-CKA shortcut for the whitened cosine equals r1\'V^-1 r2/sqrt(..) on the '
     'kept entries (checked numerically: the model and the oracle use the V form)',
-    'RDMs.subset / subsample / subset_pattern / subsample_pattern select as modelled in Rsa.Core.Folds (C05)']
+    'RDMs.subset / subsample / subset_pattern / subsample_pattern select as modelled in Rsa.Core.Folds (C05)',
+    'the in-place write counts (leaves poolInputWrites / poolingInputWrites / ceilingInputWrites) come from a syntactic '
+    'may-alias analysis of pool_rdm (both files, with module-level helpers) and the two ceilings; writes inside '
+    'compare / RDMs methods / numpy are outside it and are covered by the sessions of the correspondence only']
 
 METHODS = ['cosine', 'corr', 'rho-a', 'cosine_cov', 'corr_cov', 'spearman']
 PLAIN_MEAN = ('euclid', 'neg_riem_dist')
@@ -250,6 +273,8 @@ def run_impl(case):
             a = np.array(case['norms'], dtype=float).reshape(-1, 1)
             return {'iu': [float(v) for v in np.asarray(_nonzero(a)).ravel()],
                     'po': [float(v) for v in np.asarray(pooling._nonzero(a)).ravel()]}
+        if case['kind'] == 'session':
+            return _run_session(case)
         rdms = _build(case)
         if case['kind'] == 'poolonly':
             res = {}
@@ -257,20 +282,24 @@ def run_impl(case):
                 if key == 'po' and m == 'neg_riem_dist':
                     continue
                 try:
-                    res[key] = _vec(fn(rdms, method=m).get_vectors()[0])
+                    res[key] = _vec(fn(_build(case), method=m).get_vectors()[0])
                 except Exception as exc:  # noqa: BLE001
                     res[key] = _exc(exc)
             return res
         if case['kind'] == 'boot':
+            # every library call gets its own freshly built object (round 4): a call that writes into its
+            # argument must not leak into the next comparison of this case — sessions (kind 'session') are
+            # where one object is deliberately analysed several times
             res = {}
             try:
-                res['pool'] = _vec(pool_rdm(rdms, method=m).get_vectors()[0])
+                res['pool'] = _vec(pool_rdm(_build(case), method=m).get_vectors()[0])
             except Exception as exc:  # noqa: BLE001
                 res['pool'] = _exc(exc)
             try:
-                res['pool2'] = _vec(pooling.pool_rdm(rdms, method=m).get_vectors()[0])
+                res['pool2'] = _vec(pooling.pool_rdm(_build(case), method=m).get_vectors()[0])
             except Exception as exc:  # noqa: BLE001
                 res['pool2'] = _exc(exc)
+            rdms = _build(case)
             try:
                 call = case.get('call')
                 if call == 'default_desc':          # rdm_descriptor='index': every RDM its own group
@@ -315,6 +344,8 @@ def _rows_bits(rows):
 
 
 def model_requests(case):
+    if case['kind'] == 'session':
+        return _session_requests(case)
     if case['kind'] == 'nonzero':
         return [{'op': 'c07.nonzero', 'norms': [fbits(v) for v in case['norms']]}]
     if case['kind'] == 'poolonly':
@@ -345,6 +376,8 @@ def model_result(case, answers):
         if str(a['model_error']).startswith('unknown method'):
             return {'exc': 'ValueError', 'unknown_method': True}
         return {'model_error': a['model_error']}
+    if case['kind'] == 'session':
+        return _session_model(case, a)
     if case['kind'] == 'nonzero':
         return {'nz': [unfbits(v) for v in a]}
     if case['kind'] == 'poolonly':
@@ -373,6 +406,8 @@ def compare(case, impl, model):
     tol = TOL.get(m, 1e-9)
     if 'model_error' in model:
         return f"model error {model['model_error']}"
+    if case['kind'] == 'session':
+        return _session_compare(case, impl, model)
     if case['kind'] == 'nonzero':
         for k in ('iu', 'po'):
             if [fbits(v) for v in impl[k]] != [fbits(v) for v in model['nz']]:
@@ -508,6 +543,10 @@ def _transformed(case):
 def oracle(case):
     import warnings
     m = case['method']
+    if case['kind'] == 'session':
+        # judged in a process image in which the library has been imported but never called (C07_fresh.py):
+        # the verdict, the shrinking and every replay are independent of what this process ran before
+        return _FRESH.oracle(case)
     if case['kind'] == 'nonzero':
         impl = run_impl(case)
         want = [1.0 if v == 0 else float(v) for v in case['norms']]
@@ -660,6 +699,8 @@ def _has_ties(rows):
 
 
 def features(case, impl):
+    if case['kind'] == 'session':
+        return _session_features(case, impl)
     if case['kind'] == 'nonzero':
         return {'kind': 'nonzero', 'method': None, 'branches': ['kind:nonzero']}
     if case['kind'] == 'poolonly':
@@ -728,6 +769,10 @@ def features(case, impl):
 def nontrivial_key(case, impl):
     if case['kind'] == 'nonzero':
         return ['nonzero', case['norms']]
+    if case['kind'] == 'session':
+        if impl is None or any('exc' in c for c in impl['calls']) or len(case['calls']) < 2:
+            return None
+        return ['session', case['rows'], case['rdesc'], case.get('pdesc'), case.get('layout'), case['calls']]
     if impl is None or 'exc' in impl or len(case['rows']) < 2:
         return None
     if all(r == case['rows'][0] for r in case['rows']):
@@ -1127,10 +1172,19 @@ def generate(rng, tier):
             yield gen_cvgen(rng, None, g, variant='defaults')
         for g in ('k_fold', 'random'):
             yield gen_cvgen(rng, None, g, variant='shared')
+        # round 4: sessions (one object, several calls), each in both orders
+        for c in gen_sessions(rng, tier):
+            yield c
 
 
 def search(rng, tier):
     while True:
+        r = rng.random()
+        if r < 0.35:
+            c = gen_session(rng, layout=rng.choice([None, None, None, 'fortran', 'int']))
+            yield c
+            yield _reversed_session(c)
+            continue
         r = rng.random()
         if r < 0.6:
             yield gen_boot(rng, layout=rng.choice([None, None, None, 'fortran', 'int', 'strdesc', 'arraydesc']),
@@ -1141,9 +1195,521 @@ def search(rng, tier):
             yield gen_cvgen(rng)
 
 
+# ------------------------------------------------------------------ round 4: sessions
+#
+# kind 'session': ONE RDMs object is analysed by 2-4 successive library calls (`calls`, each with its own
+# method), the way an analyst computes the ceiling of one data set under several measures.  Every call's
+# result is compared with the model's / judged by the oracle against an independent computation from the
+# pristine rows of the case, and after every call the object must still hold the pristine data.
+#   fn  boot       boot_noise_ceiling(rdms, method, rdm_descriptor='g')
+#       cv         cv_noise_ceiling(rdms, ceil_set, test_set, method, pattern_descriptor) with the sets built
+#                  from the same object right before the call (explicit folds, or gen 'loo_rdm' =
+#                  sets_leave_one_out_rdm(rdms, 'g'))
+#       pool       util.inference_util.pool_rdm(rdms, method)    (also euclid / neg_riem_dist / tau)
+#       pooling    util.pooling.pool_rdm(rdms, method)
+#       evalfixed  inference.eval_fixed(ModelFixed(cand), rdms, method=method): noise ceiling (every RDM
+#                  its own group) and the candidate's evaluations from one public call
+
+SESSION_FNS = ('boot', 'cv', 'pool', 'pooling', 'evalfixed')
+
+
+def _call_folds(case, call):
+    """value-level folds of a cv call (gen 'loo_rdm': one fold per rdm-descriptor value, np.unique order)"""
+    if call.get('gen') == 'loo_rdm':
+        vals = sorted(set(case['rdesc']))
+        return [{'rtrain': [v for v in vals if v != t], 'rtest': [t], 'ptest': None} for t in vals]
+    return call['folds']
+
+
+def _cv_view(case, call):
+    """the cv case a cv call of a session amounts to on a fresh object"""
+    c = {k: v for k, v in case.items() if k not in ('calls',)}
+    return dict(c, kind='cv', method=call['method'], folds=_call_folds(case, call))
+
+
+def _same_state(state, rows):
+    if len(state) != len(rows):
+        return False
+    for a, b in zip(state, rows):
+        if len(a) != len(b):
+            return False
+        for x, y in zip(a, b):
+            if (x is None) != (y is None):
+                return False
+            if x is not None and fbits(float(x)) != fbits(float(y)):
+                return False
+    return True
+
+
+def _meta(rdms):
+    d = np.asarray(rdms.dissimilarities)
+    return [str(d.dtype), list(d.shape),
+            [str(v) for v in rdms.rdm_descriptors['g']], [int(v) for v in rdms.rdm_descriptors['uid']],
+            [str(v) for v in rdms.pattern_descriptors['g']], [int(v) for v in rdms.pattern_descriptors['cid']]]
+
+
+def _session_call(case, rdms, call):
+    from rsatoolbox.inference.noise_ceiling import boot_noise_ceiling, cv_noise_ceiling
+    from rsatoolbox.util.inference_util import pool_rdm
+    from rsatoolbox.util import pooling
+    m, fn = call['method'], call['fn']
+    if fn == 'boot':
+        lo, up = boot_noise_ceiling(rdms, method=m, rdm_descriptor='g')
+        return {'lower': float(lo), 'upper': float(up)}
+    if fn == 'cv':
+        if call.get('gen') == 'loo_rdm':
+            from rsatoolbox.inference.crossvalsets import sets_leave_one_out_rdm
+            _, te, ce = sets_leave_one_out_rdm(rdms, 'g')
+        else:
+            ce, te = _explicit_sets(_cv_view(case, call), rdms)
+        lo, up = cv_noise_ceiling(rdms, ce, te, method=m, pattern_descriptor=_pname(case))
+        return {'lower': float(lo), 'upper': float(up), 'folds': len(te)}
+    if fn == 'pool':
+        return {'pool': _vec(pool_rdm(rdms, method=m).get_vectors()[0])}
+    if fn == 'pooling':
+        return {'pool': _vec(pooling.pool_rdm(rdms, method=m).get_vectors()[0])}
+    if fn == 'evalfixed':
+        from rsatoolbox.model import ModelFixed
+        from rsatoolbox.inference import eval_fixed
+        model = ModelFixed('cand', _np_rows([call['cand']])[0])
+        r = eval_fixed(model, rdms, method=m)
+        lo, up = r.noise_ceiling
+        return {'lower': float(lo), 'upper': float(up),
+                'evals': [float(v) for v in np.asarray(r.evaluations)[0, 0]]}
+    raise KeyError(fn)
+
+
+def _run_session(case):
+    rdms = _build(case)          # the one object of the session
+    meta0 = _meta(rdms)
+    out = {'calls': [], 'states': [], 'meta_ok': []}
+    for call in case['calls']:
+        try:
+            out['calls'].append(_session_call(case, rdms, call))
+        except Exception as exc:  # noqa: BLE001
+            out['calls'].append(_exc(exc))
+        try:
+            st = [_vec(r) for r in np.asarray(rdms.dissimilarities)]
+            out['states'].append(None if _same_state(st, case['rows']) else st)
+            out['meta_ok'].append(_meta(rdms) == meta0)
+        except Exception as exc:  # noqa: BLE001
+            out['states'].append(_exc(exc))
+            out['meta_ok'].append(False)
+    return out
+
+
+def _session_requests(case):
+    n, nR = case['n'], len(case['rows'])
+    calls = []
+    for c in case['calls']:
+        j = {'fn': c['fn'], 'method': c['method'], 'n': n, 'rdesc': list(case['rdesc']),
+             'pdesc': list(case.get('pdesc') or range(n))}
+        if c['fn'] == 'cv':
+            j['folds'] = [{'rtrain': f.get('rtrain'), 'rtest': f.get('rtest'),
+                           'ptest': f['ptest'] if f.get('ptest') is not None else list(range(n))}
+                          for f in _call_folds(case, c)]
+        elif c['fn'] == 'evalfixed':
+            j['rdesc'] = list(range(nR))        # eval_fixed passes rdm_descriptor='index'
+            j['cand'] = [fbits(v) for v in c['cand']]
+        elif c['method'] in POOL_ONLY:
+            j['fn'] = 'poolonly'
+            j['norm'] = 'none' if c['method'] in PLAIN_MEAN else 'rank'
+            j['effect'] = c['fn']
+        calls.append(j)
+    return [{'op': 'c07.session', 'rows': _rows_bits(case['rows']), 'calls': calls}]
+
+
+def _unvec(v):
+    return [None if x is None else unfbits(x) for x in v]
+
+
+def _session_model(case, a):
+    out = {'calls': [], 'states': []}
+    for c, r in zip(case['calls'], a):
+        res, fn = r['res'], c['fn']
+        if c['method'] in POOL_ONLY:
+            out['calls'].append({'pool': _unvec(res)})
+        elif fn == 'evalfixed':
+            sub = model_result(dict(case, kind='boot', method=c['method']), [res['boot']])
+            sub['score'] = unfbits(res['score'])
+            out['calls'].append(sub)
+        else:
+            out['calls'].append(model_result(dict(case, kind='boot' if fn != 'cv' else 'cv', method=c['method']),
+                                             [res]))
+        st = [_unvec(v) for v in r['state']]
+        out['states'].append(None if _same_state(st, case['rows']) else st)
+    return out
+
+
+def _session_compare(case, impl, model):
+    for k, (c, ic, mc) in enumerate(zip(case['calls'], impl['calls'], model['calls'])):
+        m, fn = c['method'], c['fn']
+        tag = f"call {k + 1}/{len(case['calls'])} {fn}({m})"
+        tol = TOL.get(m, 1e-9)
+        if ('exc' in ic) != ('exc' in mc):
+            return f"{tag}: exception: impl {ic.get('exc')} model {mc.get('exc')}"
+        if 'exc' not in ic:
+            if fn in ('boot', 'cv', 'evalfixed'):
+                for b in ('lower', 'upper'):
+                    if not close(ic[b], mc[b], rtol=tol, atol=tol):
+                        return f'{tag}: {b}: impl {ic[b]!r} model {mc[b]!r}'
+                if fn != 'cv' and mc.get('fast') is not None:
+                    for b, v in zip(('lower', 'upper'), mc['fast']):
+                        if not close(ic[b], v, rtol=1e-9, atol=1e-9):
+                            return f'{tag}: {b} (coded fast path): impl {ic[b]!r} model {v!r}'
+                if fn == 'evalfixed':
+                    sc = float(np.mean(ic['evals']))
+                    if not close(sc, mc['score'], rtol=tol, atol=tol):
+                        return f"{tag}: mean evaluation of the candidate: impl {sc!r} model {mc['score']!r}"
+            else:
+                whitened = fn == 'pooling' and m in ('cosine_cov', 'corr_cov')
+                want = mc['poolw'] if whitened else mc['pool']
+                t = 2e-4 if whitened else 1e-9
+                if m in PLAIN_MEAN:
+                    d = first_diff(ic['pool'], want, rtol=1e-9, atol=0.0, path=tag + ' pool')
+                else:
+                    d = first_diff(_canon_pool(m, ic['pool']), _canon_pool(m, want), rtol=t, atol=t,
+                                   path=tag + ' pool')
+                if d:
+                    return d
+        if impl['states'][k] != model['states'][k]:
+            return (f'{tag}: the RDMs object holds different data after the call: impl '
+                    f"{_state_diff(case, impl['states'][k])} model {_state_diff(case, model['states'][k])}")
+        if not impl['meta_ok'][k]:
+            return f'{tag}: dtype / shape / descriptors of the RDMs object changed'
+    return None
+
+
+def _state_diff(case, st):
+    if st is None:
+        return 'unchanged'
+    if isinstance(st, dict):
+        return str(st)
+    for i, (a, b) in enumerate(zip(st, case['rows'])):
+        for q, (x, y) in enumerate(zip(a, b)):
+            if (x is None) != (y is None) or (x is not None and x != y):
+                return f'RDM {i} entry {q}: {x!r} (was {y!r})'
+    return 'shape changed'
+
+
+SESS = ' — one RDMs object analysed by several successive calls (see `where`)'
+
+
+def _session_oracle(case):
+    """every call of the session is judged against an independent computation from the pristine rows of the
+    case; after every call the analysed object must still hold those rows.  A wrong *result* is reported in
+    preference to (and together with) the in-place change that caused it"""
+    import warnings
+    with warnings.catch_warnings():
+        warnings.simplefilter('ignore')
+        np.seterr(all='ignore')
+        impl = _run_session(case)
+        mutated = None
+        hist = []
+        for k, (c, ic) in enumerate(zip(case['calls'], impl['calls'])):
+            hist.append(f"{c['fn']}({c['method']})")
+            where = f"call {k + 1} of the session {' -> '.join(hist)} on one RDMs object"
+            feat = dict(session=True, n_calls=k + 1, seq=' -> '.join(hist), mutated_by_call=mutated)
+            v = _judge_call(case, c, ic, where, feat)
+            if v:
+                v['where'] = where + (f'; call {mutated} had changed the data held by the object'
+                                      if mutated is not None else '')
+                return v
+            if mutated is None and (impl['states'][k] is not None or not impl['meta_ok'][k]):
+                mutated = k + 1
+                first = _viol('a call changed the RDMs object it analysed (the caller\'s data RDMs / their dtype / '
+                              'descriptors are overwritten in place)' + SESS, _state_diff(case, impl['states'][k])
+                              if impl['meta_ok'][k] else 'dtype / shape / descriptors changed', 'unchanged',
+                              **dict(feat, claim='input-mutated', mutated_by_call=k + 1))
+                first['where'] = where
+        return first if mutated is not None else None
+
+
+def _judge_call(case, c, ic, where, feat):
+    rows, n, rdesc = case['rows'], case['n'], case['rdesc']
+    keep = O.mask_of(rows[0])
+    d = [O.dense(r) for r in rows]
+    m, fn = c['method'], c['fn']
+    tol = 10 * TOL.get(m, 1e-9)
+    if 'exc' in ic:
+        return _viol('noise ceiling / pooling raised on a valid stack' + SESS, ic['exc'], 'a result',
+                     **dict(feat, claim='raises'))
+    if fn in ('boot', 'evalfixed'):
+        rd = rdesc if fn == 'boot' else list(range(len(rows)))
+        lo, up = ic['lower'], ic['upper']
+        elo, eup = O.boot_expected(m, rows, rd, n)
+        groups = O.groups_of(rd)
+        balanced = len(groups) > 1 and len({len(g) for g in groups}) == 1
+        if balanced and m in OPTIMAL:
+            sup = O.sup_mean_sim(m, d)
+            if not close(up, sup, rtol=tol, atol=tol):
+                return _viol('upper bound differs from the highest achievable mean similarity to the data '
+                             'RDMs' + SESS, up, sup, **dict(feat, claim='upper-sup'))
+            # the pool of the original data, scored by the library against a fresh copy of the data
+            it = iter(O.pool(m, d))
+            po = [next(it) if kp else None for kp in keep]
+            s = _real_score(dict(case, kind='boot', method=m, rdesc=rd, layout=None), po)
+            if s > up + tol:
+                return _viol('the pooled RDM of the data scores above the reported upper noise ceiling' + SESS,
+                             s, up, **dict(feat, claim='upper-beaten'))
+        if not close(lo, elo, rtol=tol, atol=tol):
+            return _viol('lower bound is not the leave-one-group-out average on the data' + SESS, lo, elo,
+                         **dict(feat, claim='lower-loo'))
+        if not close(up, eup, rtol=tol, atol=tol):
+            return _viol('upper bound is not the mean similarity of the pooled RDM of the data' + SESS, up, eup,
+                         **dict(feat, claim='upper-pool'))
+        if balanced and m in ORDERED and lo > up + tol:
+            return _viol('lower bound above upper bound' + SESS, lo, up, **dict(feat, claim='order'))
+        if fn == 'evalfixed':
+            cd = O.dense(c['cand'])
+            want = [O.sim(m, cd, r, n, keep) for r in d]
+            if first_diff(ic['evals'], want, rtol=tol, atol=tol):
+                return _viol('evaluations of the candidate are not its similarities to the data RDMs' + SESS,
+                             ic['evals'], want, **dict(feat, claim='evaluations'))
+            if m in OPTIMAL and float(np.mean(ic['evals'])) > up + tol:
+                return _viol('the candidate scores above the upper noise ceiling' + SESS,
+                             float(np.mean(ic['evals'])), up, **dict(feat, claim='upper-beaten'))
+    elif fn == 'cv':
+        folds = _fold_positions(_cv_view(case, c))      # from a fresh object
+        elo, eup = O.cv_expected(m, rows, n, folds)
+        if not close(ic['lower'], elo, rtol=tol, atol=tol):
+            return _viol('cv lower bound is not the mean similarity of the test RDMs to the pooled training RDMs '
+                         'at the test conditions' + SESS, ic['lower'], elo, **dict(feat, claim='cv-lower'))
+        if not close(ic['upper'], eup, rtol=tol, atol=tol):
+            return _viol('cv upper bound is not the mean similarity of the test RDMs to the pool of all RDMs at '
+                         'the test conditions' + SESS, ic['upper'], eup, **dict(feat, claim='cv-upper'))
+    else:
+        if m in PLAIN_MEAN:
+            want = O.plain_mean(d)
+            bad = first_diff(O.dense(ic['pool']), want, rtol=1e-9, atol=0.0)
+        else:
+            if fn == 'pooling' and m in ('cosine_cov', 'corr_cov'):
+                want, t = O.pool_whitened(m, d, n, keep), 2e-3
+            elif m in POOL_ONLY:
+                want, t = O.plain_mean([O.ranks(r) for r in d]), 1e-8
+            else:
+                want, t = O.pool(m, d), 1e-8
+            bad = first_diff(O.dense(_canon_pool(m, ic['pool'])), _canon_pool(m, want), rtol=t, atol=t)
+        if O.mask_of(ic['pool']) != keep or bad:
+            return _viol('pooled RDM is not the pool of the data' + SESS, ic['pool'], want,
+                         **dict(feat, claim='pool-value'))
+    return None
+
+
+def _session_features(case, impl):
+    calls = case['calls']
+    ms = [c['method'] for c in calls]
+    br = ['kind:session', 'sess:len2' if len(calls) == 2 else ('sess:len3+' if len(calls) > 2 else 'sess:len1'),
+          'sess:' + ('int' if case.get('layout') == 'int' else 'float')]
+    br += sorted({'sess:' + c['fn'] for c in calls})
+    br += sorted({'m:' + m for m in ms if m in TOL})
+    if O.order_sensitive(ms):
+        br.append('sess:sensitive-order')
+    if case.get('reversed'):
+        br.append('sess:reversed')
+    if any(c.get('gen') == 'loo_rdm' for c in calls):
+        br.append('sess:cv-loo-rdm')
+    if any(v is None for v in case['rows'][0]):
+        br.append('sess:nan-common')
+    if case.get('layout'):
+        br.append('layout:' + case['layout'])
+    if case.get('scale') in ('tiny', 'huge', 'mixed'):
+        br.append('scale:' + case['scale'])
+    if impl and any('exc' in c for c in impl['calls']):
+        br.append('exc:session')
+    return {'kind': 'session', 'method': ms[-1], 'n_rdm': len(case['rows']), 'n_cond': case['n'],
+            'n_calls': len(calls), 'fns': '+'.join(c['fn'] for c in calls), 'layout': case.get('layout'),
+            'scale': case.get('scale'), 'sensitive': O.order_sensitive(ms), 'branches': br}
+
+
+def _session_ok(case):
+    """every call of the session is well conditioned on the pristine data"""
+    rows = case['rows']
+    if len(rows) < 2 or not case.get('calls') or not O.common_mask(rows):
+        return False
+    if len(set(case['rdesc'])) < 2:
+        return False
+    for c in case['calls']:
+        m = c['method']
+        cm = m if m in TOL else 'rho-a'
+        if c['fn'] == 'cv':
+            if not _cv_ok(_cv_view(case, dict(c, method=cm))):
+                return False
+        else:
+            rd = list(range(len(rows))) if c['fn'] == 'evalfixed' else case['rdesc']
+            if not _well_conditioned(dict(case, method=cm, rdesc=rd)):
+                return False
+            if c['fn'] == 'evalfixed' and (len(c['cand']) != len(rows[0])
+                                           or O.mask_of(c['cand']) != O.mask_of(rows[0])
+                                           or len(set(O.dense(c['cand']))) < 2):
+                return False
+    return True
+
+
+def _gen_call(rng, case, fn, m):
+    c = {'fn': fn, 'method': m}
+    if fn == 'cv':
+        if rng.random() < 0.5:
+            c['gen'] = 'loo_rdm'
+        else:
+            vals = sorted(set(case['rdesc']))
+            kr = rng.randint(2, len(vals))
+            c['folds'] = [{'rtrain': [v for v in vals if v not in rt], 'rtest': rt, 'ptest': None}
+                          for rt in _split(rng, vals, kr)]
+    elif fn == 'evalfixed':
+        c['cand'] = rng.choice(_cands(rng, dict(case, method=m if m in TOL else 'cosine')))
+    return c
+
+
+def gen_session(rng, fns=None, methods=None, n_calls=None, layout=None, scale=None, groups=None):
+    """one object, 2-4 calls with different methods; `sensitive` orders (a call after one of a coarser
+    normalisation family) are what an in-place normaliser needs to show in a result"""
+    for _ in range(300):
+        k = n_calls or rng.choice([2, 2, 3, 4])
+        nR = rng.randint(3, 6)
+        n = rng.randint(5, 7)
+        style = rng.choice(['ties', 'signed']) if layout == 'int' else \
+            rng.choice(['ties', 'quarters', 'distinct', 'signed'])
+        gk = groups or rng.choice(['singleton', 'singleton', 'singleton', 'balanced'])
+        if gk == 'balanced':
+            nR = rng.choice([4, 6])
+        sc = 'unit' if layout == 'int' else (scale or rng.choice(SCALE_MODES))
+        rows, exps = _apply_scale(rng, _stack(rng, nR, n, style, rng.random() < 0.7), sc)
+        if layout != 'int' and rng.random() < 0.25:
+            rows = _add_nan(rng, rows, n, 'common')
+        case = {'kind': 'session', 'n': n, 'rows': rows, 'rdesc': _rdesc(rng, nR, gk), 'style': style,
+                'scale': sc, 'exps': exps}
+        if layout:
+            case['layout'] = layout
+        ms = list(methods) if methods else None
+        if ms is None:
+            ms = rng.sample(METHODS, min(k, len(METHODS)))
+        ms = (ms * k)[:k]
+        calls = []
+        for i, m in enumerate(ms):
+            fn = fns[i % len(fns)] if fns else rng.choice(SESSION_FNS)
+            if fn == 'pool' and not methods and rng.random() < 0.35:
+                m = rng.choice(POOL_ONLY)
+            if fn == 'pooling' and m == 'neg_riem_dist':
+                m = 'euclid'
+            calls.append(_gen_call(rng, case, fn, m))
+        case['calls'] = calls
+        case['method'] = calls[-1]['method']
+        if _session_ok(case):
+            return case
+    raise RuntimeError('no usable session found')
+
+
+def _reversed_session(case):
+    calls = list(reversed(case['calls']))
+    return dict(case, calls=calls, method=calls[-1]['method'], reversed=True)
+
+
+def gen_sessions(rng, tier):
+    """sessions of one generation round, every one also in the reverse order"""
+    out = []
+    # the ceiling of one data set under two measures, every ordered pair of families over the round
+    pairs = [('corr', 'cosine'), ('corr_cov', 'cosine_cov'), ('rho-a', 'corr'), ('spearman', 'cosine_cov'),
+             ('cosine', 'corr_cov'), ('cosine_cov', 'rho-a')]
+    rng.shuffle(pairs)
+    for a, b in pairs[:4 if tier == 'quick' else 6]:
+        out.append(gen_session(rng, fns=['boot'], methods=[a, b], n_calls=2))
+    for a, b in pairs[:2]:
+        out.append(gen_session(rng, fns=['cv'], methods=[a, b], n_calls=2))
+    out.append(gen_session(rng, fns=['evalfixed', 'boot'], n_calls=2))
+    out.append(gen_session(rng, fns=['pool', 'pooling', 'boot'], n_calls=3))
+    out.append(gen_session(rng, fns=['pool', 'pool'], methods=[rng.choice(['cosine', 'corr', 'rho-a']), 'euclid'],
+                           n_calls=2))
+    out.append(gen_session(rng))
+    out.append(gen_session(rng, n_calls=rng.choice([3, 4])))
+    out.append(gen_session(rng, layout='int', n_calls=2, fns=['boot', rng.choice(SESSION_FNS)]))
+    out.append(gen_session(rng, layout='fortran'))
+    res = []
+    for c in out:
+        res.append(c)
+        res.append(_reversed_session(c))
+    return res
+
+
+def _session_shrink(case, still_fails):
+    """shortest failing call sequence first, then fewer RDMs / no missing entries / unit scale"""
+    import time
+    cur = case
+    # run_check shrinks every failing case before it dedupes the findings; a mutant on which every session
+    # fails would spend minutes here (each trial is a verdict in a pristine process).  The first findings are
+    # shrunk fully; once the budget of the run is used up the remaining ones only lose superfluous calls.
+    t0 = time.time()
+    full = _SHRINK_SPENT[0] < 20.0
+    o0 = oracle(case)
+    if not o0:
+        return case
+    value = o0['features'].get('claim') != 'input-mutated'
+    if not full:
+        k = o0['features'].get('n_calls') or len(case['calls'])
+        if k < len(case['calls']):          # the calls after the failing one are superfluous by construction
+            cs = case['calls'][:k]
+            return dict(case, calls=cs, method=cs[-1]['method'])
+        return case
+
+    def ok(t):
+        # keep the class of the finding: a wrong result stays a wrong result (its shortest sequence has the
+        # call that changed the object / the library's state and the call that then answers wrongly);
+        # `oracle` judges sessions in a pristine process, as `still_fails` does
+        try:
+            if not _session_ok(t):
+                return False
+            o = oracle(t)
+            return bool(o) and (o['features'].get('claim') != 'input-mutated') == value
+        except Exception:  # noqa: BLE001
+            return False
+    changed = True
+    while changed:
+        changed = False
+        trials = []
+        if len(cur['calls']) > 1:
+            for i in range(len(cur['calls'])):
+                cs = cur['calls'][:i] + cur['calls'][i + 1:]
+                trials.append(dict(cur, calls=cs, method=cs[-1]['method']))
+        # a simpler route to the same quantity
+        for i, c in enumerate(cur['calls']):
+            if c['fn'] in ('cv', 'evalfixed', 'pooling'):
+                cs = list(cur['calls'])
+                cs[i] = {'fn': 'boot' if c['fn'] != 'pooling' else 'pool', 'method': c['method']}
+                trials.append(dict(cur, calls=cs))
+        if len(cur['rows']) > 2 and not any(c['fn'] == 'cv' and not c.get('gen') for c in cur['calls']):
+            for i in range(len(cur['rows'])):
+                t = dict(cur, rows=cur['rows'][:i] + cur['rows'][i + 1:],
+                         rdesc=cur['rdesc'][:i] + cur['rdesc'][i + 1:])
+                if cur.get('exps'):
+                    t['exps'] = cur['exps'][:i] + cur['exps'][i + 1:]
+                trials.append(t)
+        if any(v is None for v in cur['rows'][0]):
+            t = dict(cur, rows=[[1.0 if v is None else v for v in r] for r in cur['rows']])
+            t['calls'] = [dict(c, cand=[1.0 if v is None else v for v in c['cand']]) if 'cand' in c else c
+                          for c in cur['calls']]
+            trials.append(t)
+        if cur.get('exps') and any(cur['exps']):
+            t = dict(cur, rows=[[None if v is None else v * 2.0 ** -e for v in r]
+                                for r, e in zip(cur['rows'], cur['exps'])],
+                     exps=[0] * len(cur['rows']), scale='unit')
+            trials.append(t)
+        for t in trials:
+            if ok(t):
+                cur = t
+                changed = True
+                break
+    _SHRINK_SPENT[0] += time.time() - t0
+    return cur
+
+
+_SHRINK_SPENT = [0.0]
+
+
 # ------------------------------------------------------------------ shrinking
 
 def shrink(case, still_fails):
+    if case['kind'] == 'session':
+        return _session_shrink(case, still_fails)
     cur = case
     changed = True
     while changed:
